@@ -49,6 +49,33 @@ func runDict(args []string) string {
 	p := &parser{toks: args}
 	d := ogorek.NewDict()
 	var out []string
+	// the other two constructors must be indistinguishable from NewDict + Set: the leading run of
+	// Set operations is fed, depending on its length, to NewDictWithData (all at once) or to a Dict
+	// made by NewDictWithSizeHint
+	{
+		q := &parser{toks: args}
+		var kv []any
+		for q.pos < len(q.toks) && q.toks[q.pos] == "S" {
+			q.next()
+			k := q.value()
+			v := q.value()
+			kv = append(kv, k, v)
+		}
+		n := len(kv) / 2
+		switch {
+		case n >= 2 && n%3 == 0:
+			var nd ogorek.Dict
+			if dictCall(func() { nd = ogorek.NewDictWithData(kv...) }) == "ok" {
+				d = nd
+				p.pos = q.pos
+				for i := 0; i < n; i++ {
+					out = append(out, "S:ok")
+				}
+			}
+		case n >= 2 && n%3 == 1:
+			d = ogorek.NewDictWithSizeHint(n)
+		}
+	}
 	for p.pos < len(p.toks) {
 		op := p.next()
 		switch op {
